@@ -38,17 +38,10 @@ EXEMPT = {
     "Value.ObjModule": "module (rooted in Vm.modules)",
 }
 
-# struct.field -> reason. Edges that exist, are NOT exempt, and cannot be encoded with this technique here:
-# marking them means iterating a hashbrown table (`impl GcManaged for HashMap<K, V, S>`), and one
-# iteration of a one-entry table does not finish under Kani/CBMC in 25 minutes (SIMD group model, unwind
-# 17); Kani cannot stub a method of a generic trait impl either, so the owner -> table delegation cannot
-# be observed without the iteration. They are reported in the evidence as outside the claim.
-NOT_ENCODABLE = {
-    "ObjClass.methods": "hashbrown table (method values)",
-    "ObjInstance.fields": "hashbrown table (field values)",
-    "ObjHashMap.elements": "hashbrown table (keys and values; the map-key defect fixed in /repo lived in the generic impl)",
-    "ObjModule.attributes": "hashbrown table (global values)",
-}
+# struct.field -> reason. Edges that exist, are NOT exempt, and cannot be encoded with this technique here.
+# (Empty since the hashbrown tables are encoded through the association-list reference model of
+# harness/common/lib.rs - group "edges-tables", model_hashmap - see DESIGN.md 2.10.)
+NOT_ENCODABLE = {}
 
 PREAMBLE = r'''
 // ---- verif C01-H2: GENERATED edge-completeness harnesses (appended to object.rs) -----------------
@@ -115,7 +108,7 @@ mod verif_c01_edges {
         typed_gc!(Chunk, Chunk {
             code: vec![0u8, 0u8],
             lines: vec![1, 1],
-            constant_map: HashMap::with_hasher(random_state_stub()),
+            constant_map: std::collections::HashMap::with_hasher(random_state_stub()),
             constants: Vec::new(),
         })
     }
@@ -308,7 +301,7 @@ t("edge_chunk_constants", ["Chunk.constants"], '''
         let idx: usize = kani::any();
         kani::assume(idx < 2);
         let consts = if idx == 0 { vec![v, Value::None] } else { vec![Value::Number(1.0), v] };
-        let owner = Chunk { code: Vec::new(), lines: Vec::new(), constant_map: HashMap::with_hasher(random_state_stub()), constants: consts };
+        let owner = Chunk { code: Vec::new(), lines: Vec::new(), constant_map: std::collections::HashMap::with_hasher(random_state_stub()), constants: consts };
         kani::cover!(idx == 1, "reach");
         owner.mark();
         assert!(!white(&leaf), "chunk keeps its constants alive");
@@ -329,6 +322,70 @@ t("edge_stack_slots", ["Stack.stack"], '''
         assert!(!white(&leaf), "value stack keeps every live slot alive");
         std::mem::forget(owner);
 ''', unwind=5)
+
+# Owners of a hash table (run with std's HashMap replaced by the reference model: group "edges-tables").
+# Two entries, the white leaf at a symbolic position; for ObjHashMap the leaf is a VALUE in one harness
+# and a KEY (a tuple, hashable) in the other.
+STR_TABLE = '''
+        let (v, leaf) = leaf_value();
+        let idx: usize = kani::any();
+        kani::assume(idx < 2);
+        let (k0, k1) = (grey(typed_gc!(ObjString, ObjString::new(Gc::dangling(), "a", 1))), grey(typed_gc!(ObjString, ObjString::new(Gc::dangling(), "b", 2))));
+        let mut table = new_obj_string_value_map();
+        table.insert(k0, if idx == 0 { v } else { Value::None });
+        table.insert(k1, if idx == 1 { v } else { Value::Number(1.0) });
+        assert!(table.len() == 2, "set-up: two entries");
+'''
+t("edge_class_methods", ["ObjClass.methods"], STR_TABLE + '''
+        let owner = ObjClass { name: Gc::dangling(), metaclass: g_class(), superclass: None, methods: table };
+        kani::cover!(idx == 1, "reach");
+        owner.mark();
+        assert!(!white(&leaf), "class keeps every method value alive");
+        std::mem::forget(owner);
+''', unwind=4, group="edges-tables")
+t("edge_instance_fields", ["ObjInstance.fields"], STR_TABLE + '''
+        let mut owner = ObjInstance::new(g_class());
+        owner.fields = table;
+        kani::cover!(idx == 1, "reach");
+        owner.mark();
+        assert!(!white(&leaf), "instance keeps every field value alive");
+        std::mem::forget(owner);
+''', unwind=4, group="edges-tables")
+t("edge_module_attributes", ["ObjModule.attributes"], STR_TABLE + '''
+        let mut owner = ObjModule::new(g_class(), grey(w_string()));
+        owner.attributes = table;
+        kani::cover!(idx == 1, "reach");
+        owner.mark();
+        assert!(!white(&leaf), "module keeps every global value alive");
+        std::mem::forget(owner);
+''', unwind=4, group="edges-tables")
+t("edge_hashmap_values", ["ObjHashMap.elements"], '''
+        let (v, leaf) = leaf_value();
+        let idx: usize = kani::any();
+        kani::assume(idx < 2);
+        let mut owner = ObjHashMap::new(g_class());
+        owner.elements.insert(Value::Number(1.0), if idx == 0 { v } else { Value::None });
+        owner.elements.insert(Value::Boolean(true), if idx == 1 { v } else { Value::None });
+        assert!(owner.elements.len() == 2, "set-up: two entries");
+        kani::cover!(idx == 1, "reach");
+        owner.mark();
+        assert!(!white(&leaf), "map keeps every value alive");
+        std::mem::forget(owner);
+''', unwind=4, group="edges-tables")
+# keys: the kind of each key is concrete (a symbolic kind drags every arm of Value::hash / Value::eq,
+# including the recursive ones, into the formula), the leaf's position is one harness each
+for pos in (0, 1):
+    t("edge_hashmap_keys_%s" % ("first", "second")[pos], ["ObjHashMap.elements"], '''
+        let leaf = w_range();
+        let mut owner = ObjHashMap::new(g_class());
+        owner.elements.insert(%s, Value::None);
+        owner.elements.insert(%s, Value::Number(2.0));
+        assert!(owner.elements.len() == 2, "set-up: two entries");
+        kani::cover!(white(&leaf), "reach");
+        owner.mark();
+        assert!(!white(&leaf), "map keeps every KEY alive (an object used only as a key is reachable through the map)");
+        std::mem::forget(owner);
+''' % (("Value::ObjRange(leaf)", "Value::Boolean(true)") if pos == 0 else ("Value::Boolean(true)", "Value::ObjRange(leaf)")), stub="tuple", unwind=4, group="edges-tables")
 
 # ObjFiber edges (need STACK_MAX = 16)
 FIBER_SETUP = '''
@@ -511,7 +568,7 @@ def generate(src_dir):
     }
 }
 ''')
-    for g in ("edges", "edges-values", "edges-maps", "edges-fiber"):
+    for g in ("edges", "edges-values", "edges-maps", "edges-fiber", "edges-tables"):
         harnesses.append({"name": "edges_twin_must_fail", "group": g, "module": "object::verif_c01_edges", "twin": True})
     unencoded = []
     for k, ty in sorted(ref_edges.items()):
